@@ -74,14 +74,21 @@ enum GroupKind {
 }
 
 enum BlockPartition {
-    RequiresGroup(GroupKind, Vec<(String, StmtSemicolon)>),
+    /// The kind of the group, its members, and whether any member must not be formatted
+    /// (ignored by a comment, inside a `stylua: ignore start` region, or outside the range)
+    RequiresGroup(GroupKind, Vec<(String, StmtSemicolon)>, bool),
     Other(Vec<StmtSemicolon>),
 }
 
-fn partition_nodes_into_groups(block: &Block) -> Vec<BlockPartition> {
+fn partition_nodes_into_groups(ctx: &Context, block: &Block) -> Vec<BlockPartition> {
     let mut parts = Vec::new();
+    let mut ctx = *ctx;
 
     for stmt in block.stmts_with_semicolon() {
+        // Keep track of `stylua: ignore start` / `stylua: ignore end` regions
+        ctx = ctx.check_toggle_formatting(&stmt.0);
+        let is_ignored = !matches!(ctx.should_format_node(&stmt.0), FormatNode::Normal);
+
         if let Stmt::LocalAssignment(node) = &stmt.0 {
             if node.names().len() == 1 && node.expressions().len() == 1 {
                 let name = node.names().iter().next().unwrap();
@@ -101,12 +108,12 @@ fn partition_nodes_into_groups(block: &Block) -> Vec<BlockPartition> {
                     let create_new_block = match parts.last() {
                         None => true,
                         Some(BlockPartition::Other(_)) => true,
-                        Some(BlockPartition::RequiresGroup(other_kind, _))
+                        Some(BlockPartition::RequiresGroup(other_kind, _, _))
                             if *other_kind != expression_kind =>
                         {
                             true
                         }
-                        Some(BlockPartition::RequiresGroup(_, list)) => {
+                        Some(BlockPartition::RequiresGroup(_, list, _)) => {
                             let previous_require =
                                 list.last().expect("unreachable!: empty require group");
                             let position = previous_require
@@ -120,12 +127,17 @@ fn partition_nodes_into_groups(block: &Block) -> Vec<BlockPartition> {
                     };
 
                     if create_new_block {
-                        parts.push(BlockPartition::RequiresGroup(expression_kind, Vec::new()))
+                        parts.push(BlockPartition::RequiresGroup(
+                            expression_kind,
+                            Vec::new(),
+                            false,
+                        ))
                     }
 
                     match parts.last_mut() {
-                        Some(BlockPartition::RequiresGroup(_, map)) => {
-                            map.push((variable_name, stmt.clone()))
+                        Some(BlockPartition::RequiresGroup(_, map, any_ignored)) => {
+                            map.push((variable_name, stmt.clone()));
+                            *any_ignored |= is_ignored;
                         }
                         _ => unreachable!(),
                     };
@@ -138,7 +150,7 @@ fn partition_nodes_into_groups(block: &Block) -> Vec<BlockPartition> {
         // Handle as a non-require
         if parts.is_empty() {
             parts.push(BlockPartition::Other(Vec::new()))
-        } else if let Some(BlockPartition::RequiresGroup(_, _)) = parts.last() {
+        } else if let Some(BlockPartition::RequiresGroup(_, _, _)) = parts.last() {
             parts.push(BlockPartition::Other(Vec::new()))
         }
 
@@ -155,7 +167,7 @@ pub(crate) fn sort_requires(ctx: &Context, input_ast: Ast) -> Ast {
     let block = input_ast.nodes();
 
     // Find all `local NAME = require(EXPR)` lines
-    let parts = partition_nodes_into_groups(block);
+    let parts = partition_nodes_into_groups(ctx, block);
 
     // If there is only one non-require partition, or no partitions at all
     // then just return the original AST
@@ -169,12 +181,9 @@ pub(crate) fn sort_requires(ctx: &Context, input_ast: Ast) -> Ast {
     let mut stmts: Vec<StmtSemicolon> = Vec::new();
     for part in parts {
         match part {
-            BlockPartition::RequiresGroup(_, mut list) => {
+            BlockPartition::RequiresGroup(_, mut list, any_ignored) => {
                 // If any of the block is ignored, then ignore the whole thing
-                if list
-                    .iter()
-                    .any(|(_, stmt)| !matches!(ctx.should_format_node(stmt), FormatNode::Normal))
-                {
+                if any_ignored {
                     stmts.extend(list.iter().map(|x| x.1.clone()));
                     continue;
                 }
